@@ -436,6 +436,9 @@ func (c *UDPConn) WriteTo(b []byte, addr net.Addr) (int, error) {
 
 func (c *UDPConn) send(b []byte, dst *net.UDPAddr) (int, error) {
 	f := c.f
+	if f.s.CurrentID() >= 0 {
+		simrt.Yield("netwrite") // a system call is a point at which the scheduler may switch
+	}
 	f.mu.Lock()
 	if c.closed {
 		f.mu.Unlock()
@@ -821,6 +824,9 @@ func (c *TCPConn) wakeReaders() {
 // Write replaces (*net.TCPConn).Write.
 func (c *TCPConn) Write(b []byte) (int, error) {
 	f := c.f
+	if f.s.CurrentID() >= 0 {
+		simrt.Yield("netwrite")
+	}
 	f.mu.Lock()
 	if c.closed {
 		f.mu.Unlock()
